@@ -16,9 +16,10 @@ from vf.props import c02
 ID = "C19"
 LEVEL = "exploration"
 RULE = ("scenarios {same variable, two images of one tree, tree + pickled copy} x {2 threads x 1 chunk: all interleavings of "
-        "start/lock/open/seek/read/close, enumerated completely by DFS, sharded by schedule prefix} plus seeded random "
-        "schedules of larger loads (2-3 threads, 2-4 chunks each, mixed selections); thorough adds 2 threads x 2 chunks and "
-        "3 threads x 1 chunk completely. evaluations = schedules executed; distinct = distinct executed interleavings "
+        "start/lock/open/seek/read/close and 2 threads x 2 chunks, enumerated completely by DFS, sharded by schedule prefix; "
+        "3 threads x 1 chunk on three different images / one variable / tree+copy with the coarse yield points start/open/seek/read "
+        "(34650 orders when uncontended)} plus seeded random schedules of larger loads (2-4 threads on up to 4 images, 1-3 chunks "
+        "each, mixed selections); thorough adds 3 threads x 2 chunks coarse. evaluations = schedules executed; distinct = distinct executed interleavings "
         "(trace strings) per scenario; non-trivial = schedule in which at least two threads' file operations interleave or contend")
 ASSUMPTIONS = ["files opened through the tracing filesystem have independent positions (like real files); a shared or cached "
                "handle would be corrupted by a seek/seek/read order",
@@ -39,13 +40,16 @@ def _plan(tier):
     for sc in SCENARIOS:
         for p in _prefixes(2, PREFIX_DEPTH + 1):
             cases.append(("dfs", sc, 2, 2, p))
+    # three threads, coarse yield points (start/open/seek/read; uncontended locks do not yield): 34650 orders on 3 images
+    for sc in SCENARIOS:
+        for p in _prefixes(3, PREFIX_DEPTH + 1):
+            cases.append(("dfs-coarse", sc, 3, 1, p))
     if tier == "thorough":
-        for sc in SCENARIOS:
-            for p in _prefixes(3, PREFIX_DEPTH + 1):
-                cases.append(("dfs", sc, 3, 1, p))
+        for p in _prefixes(3, PREFIX_DEPTH + 2):
+            cases.append(("dfs-coarse", "different-images", 3, 2, p))
     nrand = 48 if tier == "quick" else 600
     for k in range(nrand):
-        cases.append(("random", SCENARIOS[k % 3], 2 + k % 2, 2 + k % 3, k))
+        cases.append(("random", SCENARIOS[k % 3], 2 + k % 3, 1 + k % 3, k))
     return cases
 
 
@@ -63,7 +67,7 @@ def case_weight(i, tier, seed):
     kind, sc, nt, nchunks, p = _plan(tier)[i]
     if kind == "random":
         return 3
-    return {"different-images": 120, "same-variable": 2, "pickled-copy": 2}[sc] * (10 if nt == 3 or nchunks == 2 else 1)
+    return {"different-images": 120, "same-variable": 2, "pickled-copy": 2}[sc] * (10 if nchunks == 2 else 1) * (4 if nt == 3 else 1)
 
 
 _product = {}
@@ -77,7 +81,7 @@ def _setup(seed, lines, rpc):
     sched.install_lock()
     tracefs.HOOK = sched.fs_hook
     rng = random.Random(f"C19-prod-{seed}-{lines}")
-    names = gen.product_names("1.5", pols=("HH", "HV"))
+    names = gen.product_names("1.5", pols=("HH", "HV", "VH", "VV"))
     files = {}
     for k, n in enumerate(names["imgs"]):
         im = gen.minimal_image(np.random.default_rng([seed, lines, k]), "IU2", lines, 4, "random")
@@ -92,7 +96,7 @@ def _setup(seed, lines, rpc):
     url = synth.install(files, root, "vfs")
     tree = harness.open_tree(url, use_cache=False, records_per_chunk=rpc)
     copy = pickle.loads(pickle.dumps(tree))
-    exp = {g: c02.expected_values(refdec.image(files[n])) for g, n in zip(("HH", "HV"), names["imgs"])}
+    exp = {g: c02.expected_values(refdec.image(files[n])) for g, n in zip(("HH", "HV", "VH", "VV"), names["imgs"])}
     _product[key] = (tree, copy, exp)
     return _product[key]
 
@@ -102,7 +106,7 @@ def _jobs(scenario, tree, copy, exp, sels):
     jobs, want = [], []
     for t, sel in enumerate(sels):
         if scenario == "different-images":
-            src, g = tree, ("HH", "HV")[t % 2]
+            src, g = tree, ("HH", "HV", "VH", "VV")[t % 4]
         elif scenario == "same-variable":
             src, g = tree, "HH"
         else:
@@ -133,7 +137,8 @@ def run_case(i, tier, seed):
     rpc = 3
     lines = 3 * max(4, nchunks * nthreads)
     tree, copy, exp = _setup(seed, lines, rpc)
-    if kind == "dfs":
+    sched.COARSE[0] = kind == "dfs-coarse"
+    if kind in ("dfs", "dfs-coarse"):
         sels = [slice(t * nchunks * rpc, (t + 1) * nchunks * rpc) for t in range(nthreads)]
         jobs, want = _jobs(scenario, tree, copy, exp, sels)
         # sequential reference through the real code (no scheduler): must equal the model too
@@ -156,7 +161,7 @@ def run_case(i, tier, seed):
         inconclusive = None
         if r["hung"] and not r["deadlocks"]:
             inconclusive = "threads did not finish within the join timeout without a scheduler-visible deadlock"
-        return {"sig": f"dfs|{scenario}|{nthreads}x{nchunks}", "evals": r["runs"], "violations": violations, "obs": obs,
+        return {"sig": f"{kind}|{scenario}|{nthreads}x{nchunks}", "evals": r["runs"], "violations": violations, "obs": obs,
                 "inconclusive": inconclusive,
                 "sample": {"scenario": scenario, "threads": nthreads, "chunks_per_thread": nchunks, "prefix": p,
                            "schedules_in_this_subtree": r["runs"], "max_depth": r["max_depth"]} if r["runs"] > 1 else None}
@@ -195,7 +200,7 @@ def run_case(i, tier, seed):
 def finish(results, tier, seed):
     per = {}
     for r in results:
-        if isinstance(r.get("sig"), str) and r["sig"].startswith("dfs|"):
+        if isinstance(r.get("sig"), str) and r["sig"].startswith("dfs"):
             per[r["sig"]] = per.get(r["sig"], 0) + r.get("evals", 0)
     total = sum(r.get("obs", {}).get("distinct_interleavings", 0) for r in results)
     return {"exhaustive": False, "interleavings_enumerated_completely": per, "distinct_nontrivial": total,
